@@ -36,15 +36,15 @@ def kinds(lang):
     """(id, mode, text)  mode: 'line' = new line inserted, 'trail' = appended to the line before the boundary"""
     ks = [("blank", "line", ""), ("spaces", "line", "      "), ("tab", "line", "\t")]
     if lang == "Python":
-        ks += [("hash0", "line", "# inserted comment ( {"), ("hash-ind", "line", "        # inserted comment } )"),
+        ks += [("hash0", "line", "# inserted comment ( { it's \"quoted\"; ) ,"), ("hash-ind", "line", "        # inserted comment } )"),
                ("trail-hash", "trail", "  # trailing { comment"), ("trail-spaces", "trail", "   "),
                # a comment that MENTIONS the suppression marker later in its text does not start with it
                ("trail-mention", "trail", "  # was marked nocl before the refactoring"),
                ("wide-line", "line", "# sourceMappingURL=data:application/json;base64," + "QUJD" * (WIDE // 4)),
                ("trail-wide", "trail", "  # " + "w" * WIDE)]
         return ks
-    ks += [("slash0", "line", "// inserted comment ( {"), ("slash-ind", "line", "        // inserted } ) comment"),
-           ("block0", "line", "/* inserted { ( comment */"), ("block-ind", "line", "    /* inserted } */"),
+    ks += [("slash0", "line", "// inserted comment ( { the caller's \"buffer\"; ) ,"), ("slash-ind", "line", "        // inserted } ) comment"),
+           ("block0", "line", "/* inserted { ( comment */"), ("block-ind", "line", "    /* length (in bytes); don't \"quote\" } */"),
            ("trail-slash", "trail", " // trailing { comment"), ("trail-block", "trail", " /* trailing ( */"), ("trail-spaces", "trail", "   "),
            ("trail-mention", "trail", " // was marked nocl before the refactoring"), ("trail-mention-block", "trail", " /* not a nocl marker */"),
            ("wide-line", "line", "//# sourceMappingURL=data:application/json;base64," + "QUJD" * (WIDE // 4)),
@@ -107,7 +107,9 @@ def shifted(ms0, new_lines):
 
 
 def code_stream(lang, text):
-    return [(str(ty), val) for _, ty, val in oracle.raw_code_tokens(lang, text)]
+    """the code tokens as (top-level token class, text): an insertion is 'between the tokens' when this stream is unchanged. The lexer's
+    finer tags (Name.Function vs Name ...) are NOT part of it: they may legitimately depend on context the lexer guesses from"""
+    return [(str(ty).split(".")[1] if "." in str(ty) else str(ty), val) for _, ty, val in oracle.raw_code_tokens(lang, text)]
 
 
 class FileCtx:
